@@ -207,13 +207,60 @@ fn one_history(run: &Run, case: u64) {
     run.sample(|| json!({"case": case, "history": descs}));
 }
 
+/// Scale: the backup, changed backup and gc of a 10 040-file tree with one entry per hunk
+/// (two index subdirectories) replayed into two archives on different runtimes.
+fn many_hunks(run: &Run) {
+    let w = crate::history::many_hunks_world("c17big", run.seed);
+    let o = crate::history::MANY_HUNKS_OPTS;
+    let arch2 = w.sc.join("arch2");
+    cs::create_archive(&arch2);
+    run.eval();
+    let mut w = w;
+    for step in ["backup", "change+backup", "gc"] {
+        match step {
+            "gc" => {
+                let _ = cs::delete(cs::local(&w.arch), &w.arch, &[], false, false);
+                let _ = cs::with_workers(4, || cs::delete(cs::local(&arch2), &arch2, &[], false, false));
+            }
+            _ => {
+                if step == "change+backup" {
+                    let mut spec = w.spec.clone();
+                    for i in [3u32, 9_999, 10_000, 10_039] {
+                        let mut n = crate::tree::Node::file(format!("changed {i}").into_bytes());
+                        n.mtime_s = 1_700_000_000 + i as i64;
+                        spec.insert(format!("/f{i:05}"), n);
+                    }
+                    spec.remove("/f10001");
+                    w.set_spec(spec);
+                }
+                let _ = cs::backup(cs::local(&w.arch), &w.src, o, &[], None);
+                let _ = cs::with_workers(4, || cs::backup(cs::local(&arch2), &w.src, o, &[], None));
+            }
+        }
+        run.count("archive_pairs_compared", 1);
+        if let Some(d) = first_difference(&normalised(&w.arch), &normalised(&arch2)) {
+            run.violation("replay-differs:many-hunks", format!("[10 040-file tree, 1 entry per hunk] after {step}: current-thread replay vs 4-worker replay: {d}"), json!({"many_hunks": true}));
+            return;
+        }
+    }
+    run.count("many_hunks_replays_compared", 1);
+}
+
 pub fn run(tier: Tier, replay: Option<Value>) -> i32 {
-    let run = Run::new("C17", "exploration", tier, replay);
-    run.par_cases(tier.pick(100, 4000), super::threads().min(8), |c| one_history(&run, c));
+    let run = Run::new("C17", "exploration", tier, replay.clone());
+    if replay.as_ref().and_then(|r| r.get("many_hunks")).is_some() {
+        many_hunks(&run);
+        return run.finish("replay", &[], None, &[]);
+    }
+    if replay.is_none() {
+        super::alongside(&run, "the many-hunks replay", || many_hunks(&run), || run.par_cases(tier.pick(100, 4000), super::threads().min(8), |c| one_history(&run, c)));
+    } else {
+        run.par_cases(tier.pick(100, 4000), super::threads().min(8), |c| one_history(&run, c));
+    }
     run.finish(
-        "histories over {tree mutations, backup(random options), backup killed before its n-th write, delete of a random subset (sometimes with the removal of one particular garbage block failing, a fault addressed by path), gc} are executed in lock-step from the same on-disk source states into a first archive (current-thread tokio runtime) and into one (thorough: two) replica archives on multi-thread runtimes with 2 or 8 workers and random yields/sleeps before every storage operation; after every step the complete directory trees must be byte-identical, BANDHEAD/BANDTAIL compared as JSON without start_time/end_time. Within one process every HashMap instance already gets its own random seed, so hash-order dependence shows up without a second process. Distinct = history text with >= 3 archive operations.",
+        "histories over {tree mutations, backup(random options), backup killed before its n-th write, delete of a random subset (sometimes with the removal of one particular garbage block failing, a fault addressed by path), gc} are executed in lock-step from the same on-disk source states into a first archive (current-thread tokio runtime) and into one (thorough: two) replica archives on multi-thread runtimes with 2 or 8 workers and random yields/sleeps before every storage operation; after every step the complete directory trees must be byte-identical, BANDHEAD/BANDTAIL compared as JSON without start_time/end_time. Within one process every HashMap instance already gets its own random seed, so hash-order dependence shows up without a second process. One history (backup, change, backup, gc) on a 10 040-file tree with one entry per hunk is replayed the same way. Distinct = history text with >= 3 archive operations.",
         &["timestamps in heads and tails are the only allowed difference", "a separate-process replay was not added (per-instance hash seeds make it redundant)"],
         None,
-        &[("archive_pairs_compared", 100), ("killed_backups_replayed", 3), ("histories_completed", 10)],
+        &[("archive_pairs_compared", 100), ("killed_backups_replayed", 3), ("histories_completed", 10), ("many_hunks_replays_compared", 1)],
     )
 }
